@@ -50,7 +50,7 @@ class World:
     """n parameters, m objectives, k inequality constraints, all known to the oracle"""
 
     def __init__(self, D, sim, n=None, m=None, ncons=None, box=None, quantised=None, precision=None,
-                 fail=None, with_tol=False, maximise=None, with_predict=False, name='simworld'):
+                 fail=None, with_tol=False, maximise=None, with_predict=False, name='simworld', int_params=False):
         self.D = D
         self.sim = sim
         self.n = n if n is not None else 1 + D.dec('cfg', 'n', 5)
@@ -78,6 +78,8 @@ class World:
                 # declared coarse precisions: a binary fraction of the width, and 5*10^k / 4*10^k grids (not powers of ten)
                 decade = 10.0 ** math.floor(math.log10(ub - lb))
                 p['precision'] = ((ub - lb) / 64.0, 0.05 * decade, 0.4 * decade)[prec - 1]
+            if int_params and not prec and kind in ('negative', 'offset', 'mixedsign', 'unit') and D.dec('cfg', ('ptype', i), 3) == 1:
+                p['parameter_type'] = 'integer'     # sampled designs are truncated to integers; the box is the same
             if with_tol:
                 p['tol'] = (ub - lb) * (0.01, 0.05, 0.001)[D.dec('cfg', ('tol', i), 3)]
             p['initial_value'] = lb + (ub - lb) * 0.25
